@@ -474,6 +474,9 @@ func (s *Sim) checkProgress(why string) {
 // wedgeSignature: where the event loop stands, and which report producers are stuck
 // handing a report to the server (named by the producer's own function).
 func wedgeSignature(dump string) string {
+	if c := classifyStuck(dump); c != "" {
+		return c
+	}
 	set := map[string]bool{}
 	upfFrames := func(g string) []string {
 		var fs []string
@@ -512,12 +515,22 @@ func wedgeSignature(dump string) string {
 	case set["loop@go-nl.(*Client).Do"] && muxStuck:
 		return "loop>netlink-reply|mux>report-queue"
 	}
-	var fs []string
+	// an unknown cycle is named by where the event loop waits; which producers are stuck
+	// behind it is collateral (and may differ between runs), it is in the report's detail
+	var loops, others []string
 	for f := range set {
-		fs = append(fs, f)
+		if strings.HasPrefix(f, "loop@") {
+			loops = append(loops, f)
+		} else {
+			others = append(others, f)
+		}
 	}
-	sort.Strings(fs)
-	return strings.Join(fs, "|")
+	sort.Strings(loops)
+	sort.Strings(others)
+	if len(loops) > 0 {
+		return strings.Join(loops, "|")
+	}
+	return strings.Join(others, "|")
 }
 
 func (s *Sim) mstepLite(f func()) {
